@@ -10,7 +10,7 @@ use tree_sitter::{ParseOptions, Parser, Tree};
 
 pub fn params(tier: &str) -> (usize, usize, usize) {
     // (atoms per string n, hist start-doc k, hist depth)
-    if tier == "quick" { (4, 1, 1) } else { (5, 2, 2) }
+    if tier == "mini" { (2, 0, 1) } else if tier == "quick" { (4, 1, 1) } else { (5, 2, 2) }
 }
 
 pub fn meta(tier: &str) -> CheckMeta {
@@ -108,7 +108,7 @@ pub fn worker(ctx: &Ctx, res: &mut ShardResult) {
     let (n, k, depth) = params(&ctx.tier);
     let zoo = crate::zoo::core_zoo();
     let mut idx = 0usize;
-    let sizes: Vec<usize> = if ctx.quick() { vec![10, 100, 1000, 10000] } else { vec![10, 100, 1000, 10000, 100000] };
+    let sizes: Vec<usize> = if ctx.mini() { vec![10, 1000] } else if ctx.quick() { vec![10, 100, 1000, 10000] } else { vec![10, 100, 1000, 10000, 100000] };
     for z in zoo.iter() {
         let info = build_info(z);
         let mut parser = Parser::new();
